@@ -104,6 +104,7 @@ def build(tier, work, builder):
     names["kind"], names["typedef"] = fm.group(1), fm.group(2)
     ch = X.if_chain(ts, "type_t::print_declaration: if (range) ... chain", r"if \(%s\) \{" % re.escape(names["range"]), (pd.start, pd.end))
     X.rename_self_calls(ch, "print_declaration", pattern=r"\)\s*\.\s*print_declaration\(", minimum=0)
+    X.lower_structured_pair(ch, "expression_t", "expression_t", only_if=r"get_range\(\)")
     if re.search(r"if \(%s\) \{" % re.escape(names["range"]), ch.text) is None:
         raise X.ExtractionBroken("type_t::print_declaration: the chain does not start with the range flag")
     ch.text = ("std::ostream& type_t::print_declaration_tail(std::ostream& os, bool %s, bool %s, bool %s, bool %s, std::string %s) const\n{\n"
